@@ -169,18 +169,21 @@ def pairs : List Char → Option (List (List Char))
 
 /-- `decode_actisense_string`: `A<sec>.<ms> <hdr hex> <pgn hex> <data hex>`; the frame it
 hands on is already combined (whole payload). -/
+def decodeActisenseToks (ts hdr pgnTok dataTok : List Char) : Res Frame :=
+  match splitOn '.' ts with
+  | [sec, ms] =>
+    (match parseDec sec, parseDec ms, parseHex hdr, parseHex pgnTok, (pairs dataTok).bind (fun ps => allSome (ps.map parseHex)) with
+     | some s, some m, some n, some pgn, some data =>
+       if sec.length > 9 ∨ ms.length > 9 then .error   -- outside the modelled grammar (timedelta range)
+       else let _ := s; let _ := m
+         .ok { pgn := pgn, prio := n % 16, dst := n / 16 % 256, src := n / 4096 % 256, data := data }
+     | _, _, _, _, _ => .error)
+  | _ => .error
+
 def decodeActisense (line : List Char) : Res Frame :=
   match splitSpaces line with
-  | ('A' :: ts) :: hdr :: pgnTok :: dataTok :: _ =>
-    match splitOn '.' ts with
-    | [sec, ms] =>
-      (match parseDec sec, parseDec ms, parseHex hdr, parseHex pgnTok, (pairs dataTok).bind (fun ps => allSome (ps.map parseHex)) with
-       | some s, some m, some n, some pgn, some data =>
-         if sec.length > 9 ∨ ms.length > 9 then .error   -- outside the modelled grammar (timedelta range)
-         else let _ := s; let _ := m
-           .ok { pgn := pgn, prio := n % 16, dst := n / 16 % 256, src := n / 4096 % 256, data := data }
-       | _, _, _, _, _ => .error)
-    | _ => .error
+  | ('A' :: ts) :: hdr :: pgnTok :: dataTok :: _ => decodeActisenseToks ts hdr pgnTok dataTok
+  | [('A' :: ts), hdr, pgnTok] => decodeActisenseToks ts hdr pgnTok []      -- no data part: empty payload
   | _ => .error
 
 /-! ### canboat plain text -/
